@@ -897,6 +897,11 @@ Definition ft_wf (f : option str * (Z * Z)) : bool :=
 Definition gap_slice_same_residues (g : str) (s : bioseq) (sl : pyslice) : Prop :=
   exists r, seq_getitem (Some g) s (ISlice sl) = Ok r /\ pyget (degap g (data s)) (ISlice sl) = Ok (degap g (data r)).
 
+(* bounds of gap-aware slices that stay clear of the clamp in adj (seq.py:479-480: max(i + len(nogaps), 0)) *)
+Definition bound_ok (len : Z) (step : option Z) (o : option Z) : Prop :=
+  match o with None => True | Some i => match step with None => True | Some k => 0 < k end \/ - len <= i end.
+Definition rev_bound_ok (n : Z) (o : option Z) : Prop := match o with None => True | Some i => - n <= i end.
+
 (* ---- harness ---- *)
 Inductive op :=
 | OLen (s : str)
